@@ -639,10 +639,13 @@ def mini_eval(e, env: dict):
     if isinstance(e, ast.IfExp):
         return mini_eval(e.body if mini_eval(e.test, env) else e.orelse, env)
     if isinstance(e, ast.BoolOp):
-        vals = [mini_eval(v, env) for v in e.values]
-        if isinstance(e.op, ast.Or):
-            return next((v for v in vals if v), vals[-1])
-        return next((v for v in vals if not v), vals[-1])
+        # short-circuit, as Python does (`m and m.get(..)` with m None must not look at the second operand)
+        last = None
+        for v_ in e.values:
+            last = mini_eval(v_, env)
+            if bool(last) == isinstance(e.op, ast.Or):
+                return last
+        return last
     if isinstance(e, ast.UnaryOp):
         v = mini_eval(e.operand, env)
         if isinstance(e.op, ast.Not):
@@ -655,12 +658,24 @@ def mini_eval(e, env: dict):
                ast.Mod: lambda: l % r, ast.Pow: lambda: l ** r}
         if type(e.op) in ops:
             return ops[type(e.op)]()
+    if isinstance(e, (ast.Tuple, ast.List, ast.Set)) and not any(isinstance(x, ast.Starred) for x in e.elts):
+        return tuple(mini_eval(x, env) for x in e.elts)
+    if isinstance(e, ast.Call) and isinstance(e.func, ast.Attribute) and e.func.attr in ("get", "startswith", "endswith") and not e.keywords and 1 <= len(e.args) <= 2:
+        # the two pure lookups the classification code uses, on concrete stand-ins (a dict, a str)
+        recv = mini_eval(e.func.value, env)
+        args = [mini_eval(a, env) for a in e.args]
+        if e.func.attr == "get" and isinstance(recv, dict):
+            return recv.get(*args)
+        if e.func.attr in ("startswith", "endswith") and isinstance(recv, str) and len(args) == 1 and isinstance(args[0], (str, tuple)):
+            return getattr(recv, e.func.attr)(args[0])
+        raise MiniEvalUnknown(txt[:60])
     if isinstance(e, ast.Compare):
         left = mini_eval(e.left, env)
         for op, c in zip(e.ops, e.comparators):
             right = mini_eval(c, env)
             res = {ast.Eq: lambda: left == right, ast.NotEq: lambda: left != right, ast.Lt: lambda: left < right, ast.LtE: lambda: left <= right,
-                   ast.Gt: lambda: left > right, ast.GtE: lambda: left >= right, ast.Is: lambda: left is right, ast.IsNot: lambda: left is not right}.get(type(op))
+                   ast.Gt: lambda: left > right, ast.GtE: lambda: left >= right, ast.Is: lambda: left is right, ast.IsNot: lambda: left is not right,
+                   ast.In: lambda: left in right, ast.NotIn: lambda: left not in right}.get(type(op))
             if res is None:
                 raise MiniEvalUnknown(txt[:60])
             if not res():
@@ -668,3 +683,35 @@ def mini_eval(e, env: dict):
             left = right
         return True
     raise MiniEvalUnknown(txt[:60])
+
+
+def same_class_config_copies(prog):
+    """Sites where a configuration dataclass is rebuilt from an object of the SAME class: a call `C(...)` one of whose arguments reads `<x>.<attr>` with `<x>` a
+    parameter annotated as C (or C | None). Returns (module, function node, call node, class info, fields not passed). A field that is not passed silently falls back
+    to its default - the caller's choice is lost on the way to the executor. (Deriving a config of ANOTHER class - StepConfig from WaitForCallbackConfig - is not a
+    copy and is not listed; `dataclasses.replace(x, ...)` keeps every field it does not name and is not listed either.)"""
+    out = []
+    n_funcs = 0
+    dcs = {c.name: c for c in prog.classes.values() if c.is_dataclass and c.name.endswith("Config")}
+    for m in prog.modules.values():
+        for fn in [n for n in ast.walk(m.tree) if isinstance(n, (ast.FunctionDef, ast.AsyncFunctionDef))]:
+            ann = {}
+            for a in list(fn.args.args) + list(fn.args.kwonlyargs):
+                if a.annotation is not None:
+                    for nm in [x.id for x in ast.walk(a.annotation) if isinstance(x, ast.Name)] + \
+                              [x.value.split("[")[0].split("|")[0].strip() for x in ast.walk(a.annotation) if isinstance(x, ast.Constant) and isinstance(x.value, str)]:
+                        if nm in dcs:
+                            ann[a.arg] = nm
+            if not ann:
+                continue
+            n_funcs += 1
+            for c in [n for n in ast.walk(fn) if isinstance(n, ast.Call) and isinstance(n.func, ast.Name) and n.func.id in dcs]:
+                srcs = {x.value.id for a in list(c.args) + [k.value for k in c.keywords] for x in ast.walk(a)
+                        if isinstance(x, ast.Attribute) and isinstance(x.value, ast.Name) and ann.get(x.value.id) == c.func.id}
+                if not srcs or any(k.arg is None for k in c.keywords):
+                    continue
+                ci = dcs[c.func.id]
+                names = [f.name for f in ci.all_fields()]
+                passed = set(names[: len(c.args)]) | {k.arg for k in c.keywords}
+                out.append((m, fn, c, ci, [f for f in names if f not in passed]))
+    return out, n_funcs
